@@ -18,7 +18,7 @@ func init() {
 	run.Register(&run.Check{
 		ID:    "C15",
 		Level: "exploration",
-		Rule: "cases: histories of up to 40 InsertObject / DeleteObject / SetResources calls on one PolicyEngine - empty at first and filled one by one or through the bulk setter, or created by NewPolicyEngineWithObjects from the initial objects - (pods with controller owners - several per owner - relabelled, re-ported, added, deleted; namespaces inserted, relabelled, deleted; NetworkPolicies inserted, deleted, deleted+reinserted changed; ANPs inserted in non-priority order and deleted through the inserted or an equal fresh object; the BANP inserted, deleted, replaced; deletes of never-inserted objects of every kind; ClearResources followed by the return of the namespaces and pods with only some of the policies; a SetResources call that fails half-way, judged against both readings of what a failed batch leaves behind), with a fixed query set (pod pairs x boundary ports x TCP/UDP) asked after every step; " +
+		Rule: "cases: histories of up to 40 InsertObject / DeleteObject / SetResources calls on one PolicyEngine - empty at first and filled one by one or through the bulk setter, or created by NewPolicyEngineWithObjects from the initial objects - (pods with controller owners - several per owner - relabelled, re-ported, added, deleted; namespaces inserted, relabelled, deleted; NetworkPolicies inserted, deleted, deleted+reinserted changed; ANPs inserted in non-priority order and deleted through the inserted or an equal fresh object; the BANP inserted, deleted, replaced; deletes of never-inserted objects of every kind; ClearResources followed by the return of the namespaces and pods with only some of the policies; a SetResources call that fails half-way, judged against both readings of what a failed batch leaves behind; an AdminNetworkPolicy whose insert is rejected - priority in use or outside 0..1000 -, a valid one inserted while it may still be held, then the rejected one deleted: if the valid insert returned an error all answers must be those of a fresh engine with it or all those of one without it; case 0 is the committed witness history of finding C15-rejected-anp-insert), with a fixed query set (pod pairs x boundary ports x TCP/UDP) asked after every step; " +
 			"oracle: the history engine's answer must equal the answer of a fresh engine built with NewPolicyEngineWithObjects from the objects current at that moment (the reference model is consulted too: where the comparison engine and the model disagree, an engine built for that single question arbitrates - the comparison engine answers many questions and may be misled by its own memory -, and if that one disagrees with the model too the query is not judged here); the engine's own cache-hit counter, read around every query, says which answers came out of the cache; " +
 			"non-trivial = at least one answer changed over the history (how many answers came out of the cache after an update is reported, not demanded: an engine that remembers less is just as right); distinct = hash of the operation sequence",
 		Assumptions:       []string{"current objects = the objects of the successful calls so far (model state kept by the harness)", "a NetworkPolicy is updated by delete + insert (InsertObject rejects an existing name)"},
@@ -29,7 +29,7 @@ func init() {
 		MinEffectiveShare: 0.5,
 		RequiredEvents: map[string]int64{"steps": 5000, "queries": 200000, "answers_changed_by_a_step": 1000, "deletes_of_absent_objects": 300,
 			"op_nsRelabel": 100, "op_nsDelete": 50, "op_anpInsert": 100, "op_anpDelete": 100, "op_banpInsert": 50, "op_banpDelete": 50, "op_npInsert": 100, "op_npDelete": 100,
-			"op_podRelabel": 100, "op_podDelete": 50, "op_podPorts": 50, "op_podRecreate": 50, "op_SetResources": 100, "op_clearRepopulate": 50, "histories_starting_from_the_constructor": 100, "op_failingBulkSet": 50, "op_podPending": 50},
+			"op_podRelabel": 100, "op_podDelete": 50, "op_podPorts": 50, "op_podRecreate": 50, "op_SetResources": 100, "op_clearRepopulate": 50, "histories_starting_from_the_constructor": 100, "op_failingBulkSet": 50, "op_podPending": 50, "op_anpRejectedInsert": 100},
 	})
 }
 
@@ -80,8 +80,66 @@ type c15Query struct {
 	port     int
 }
 
+// runC15Witness replays the committed history of finding C15-rejected-anp-insert: an AdminNetworkPolicy with priority 5000 is rejected,
+// a valid one (priority 3) is inserted next (the call returns an error because of the first one), the rejected one is deleted. The answers
+// afterwards must be those of a fresh engine holding {deny-80 (priority 5), allow-80-81 (priority 3)} or of one holding {deny-80} only.
+func runC15Witness(c *run.Ctx) {
+	r := c.Res
+	r.Name = "witness C15-rejected-anp-insert"
+	r.Hash = "witness"
+	all := world.Subject{Namespaces: &world.Sel{}}
+	w := &world.World{
+		Namespaces: []world.Namespace{{Name: "ns1"}},
+		Workloads: []world.Workload{
+			{Ns: "ns1", Name: "client", Kind: world.KPod, Labels: map[string]string{"app": "client"}, Ports: []world.CPort{{Num: 80, Proto: "TCP"}}},
+			{Ns: "ns1", Name: "server", Kind: world.KPod, Labels: map[string]string{"app": "server"}, Ports: []world.CPort{{Num: 80, Proto: "TCP"}}}},
+		ANPs: []world.ANP{{Name: "deny-80", Priority: 5, Subject: all,
+			Ingress: []world.ANPRule{{Name: "d", Action: "Deny", Peers: []world.Subject{all}, HasPorts: true, Ports: []world.ANPPort{{Kind: "num", Proto: "TCP", Port: 80}}}}}},
+		BANP: &world.BANP{Name: "default", Subject: all, Ingress: []world.ANPRule{{Name: "b", Action: "Deny", Peers: []world.Subject{all}}}},
+	}
+	rejected := world.ANP{Name: "rejected", Priority: 5000, Subject: all}
+	valid := world.ANP{Name: "allow-80-81", Priority: 3, Subject: all,
+		Ingress: []world.ANPRule{{Name: "a", Action: "Allow", Peers: []world.Subject{all}, HasPorts: true, Ports: []world.ANPPort{{Kind: "range", Proto: "TCP", Port: 80, End: 81}}}}}
+	st := &c15State{w: w, eng: observe.NewEngine(), anps: map[string]runtime.Object{}, r: r}
+	for _, d := range w.Docs() {
+		st.call("insert "+d.Kind+" "+d.Ns+"/"+d.Name, st.eng.Insert(st.obj(d)), true)
+	}
+	st.call("insert AdminNetworkPolicy rejected (priority 5000)", st.eng.Insert(st.obj(world.ANPDoc(&rejected))), false)
+	validOK := st.call("insert AdminNetworkPolicy allow-80-81 (priority 3)", st.eng.Insert(st.obj(world.ANPDoc(&valid))), false)
+	st.call("delete AdminNetworkPolicy rejected", st.eng.Delete(st.obj(world.ANPDoc(&rejected))), true)
+	if len(r.Violations) > 0 {
+		return
+	}
+	with := w.Clone()
+	with.ANPs = append(with.ANPs, valid)
+	answers := func(x *world.World) string {
+		objs, err := observe.ObjectsFromWorld(x)
+		if err != nil {
+			return "objects: " + err.Error()
+		}
+		e, cr := observe.NewEngineWithObjects(objs)
+		if cr.Panic != "" || cr.HasErr {
+			return "engine: " + cr.Panic + cr.Err
+		}
+		return fmt.Sprint(e.Check("ns1/client", "ns1/server", "TCP", "80").Allowed, e.Check("ns1/client", "ns1/server", "TCP", "81").Allowed)
+	}
+	got := fmt.Sprint(st.eng.Check("ns1/client", "ns1/server", "TCP", "80").Allowed, st.eng.Check("ns1/client", "ns1/server", "TCP", "81").Allowed)
+	wantWith, wantWithout := answers(with), answers(w)
+	r.Ev("queries", 2)
+	r.Ev("witness_histories", 1)
+	r.Effective, r.NonTrivial = true, true
+	if got != wantWith && (validOK || got != wantWithout) {
+		r.Violate("c15.history", "c15.history:failed-anp-insert:mixed-state", fmt.Sprintf("[80 81] = %s (the valid policy is held) or, if its insert returned an error, %s (it is not)", wantWith, wantWithout),
+			fmt.Sprintf("%s (its insert succeeded: %v)", got, validOK), "history: "+strings.Join(st.log, " ; "))
+	}
+}
+
 func runC15(c *run.Ctx) {
 	r := c.Res
+	if c.Idx == 0 {
+		runC15Witness(c)
+		return
+	}
 	g := c.R("history")
 	cfg := world.DefaultCfg()
 	cfg.NamedEgressIP = 0
@@ -295,7 +353,7 @@ func runC15(c *run.Ctx) {
 	for step := 0; step < steps && len(r.Violations) == 0; step++ {
 		r.Ev("steps", 1)
 		op := rng.Pick(g, []string{"podPending", "podRelabel", "podDelete", "podAdd", "podPorts", "podRecreate", "nsRelabel", "nsRelabel", "nsDelete", "npInsert", "npDelete", "npReplace",
-			"anpInsert", "anpInsert", "anpDelete", "banpInsert", "banpDelete", "banpReplace", "deleteAbsent", "deleteAbsent", "requery", "bulkSet", "clearRepopulate", "failingBulkSet"})
+			"anpInsert", "anpInsert", "anpDelete", "banpInsert", "banpDelete", "banpReplace", "deleteAbsent", "deleteAbsent", "requery", "bulkSet", "clearRepopulate", "failingBulkSet", "anpRejectedInsert", "anpRejectedInsert"})
 		done := false
 		switch op {
 		case "podRelabel":
@@ -653,6 +711,130 @@ func runC15(c *run.Ctx) {
 			}
 			if okA {
 				st.w = wA
+			}
+			prev = map[string]bool{}
+			continue
+		case "anpRejectedInsert":
+			// an AdminNetworkPolicy whose insert is REJECTED (a priority already in use, or one outside 0..1000), possibly followed by the
+			// insert of a perfectly valid one while the rejected one may still be around, then the rejected one is deleted. Afterwards
+			// the rejected policy is certainly not a current object; the valid one is a current object if its insert succeeded, and if
+			// that insert returned an error too, all answers must be those of a fresh engine with it or all those of one without it.
+			if len(st.w.ANPs) == 0 || len(st.w.ANPs) > 3 {
+				break
+			}
+			nextID++
+			rej := world.ANP{Name: fmt.Sprintf("rejected%d", nextID), Subject: world.GenSubject(g, st.w)}
+			rej.Ingress = world.GenANPRules(g, st.w, cfg, false, 2)
+			rej.Egress = world.GenANPRules(g, st.w, cfg, false, 2)
+			if g.P(0.5) {
+				rej.Priority = st.w.ANPs[g.Intn(len(st.w.ANPs))].Priority
+			} else {
+				rej.Priority = rng.Pick(g, []int{-1, 1001, 5000})
+			}
+			if st.call(fmt.Sprintf("insert AdminNetworkPolicy %s (priority %d, to be rejected)", rej.Name, rej.Priority), st.eng.Insert(st.obj(world.ANPDoc(&rej))), false) {
+				r.Ev("rejected_anp_insert_was_accepted", 1)
+			}
+			r.Ev("op_anpRejectedInsert", 1)
+			var valid *world.ANP
+			validErr := false
+			if g.P(0.6) {
+				pri := -1
+				for _, p := range priPool {
+					if !usedPri[p] {
+						pri = p
+						break
+					}
+				}
+				if pri >= 0 {
+					nextID++
+					a := world.ANP{Name: fmt.Sprintf("anp%d", nextID), Priority: pri, Subject: world.GenSubject(g, st.w)}
+					a.Ingress = world.GenANPRules(g, st.w, cfg, false, 2)
+					a.Egress = world.GenANPRules(g, st.w, cfg, false, 2)
+					valid = &a
+					o := st.obj(world.ANPDoc(&a))
+					validErr = !st.call("insert AdminNetworkPolicy "+a.Name+" (valid, while a rejected one may be held)", st.eng.Insert(o), false)
+					if len(r.Violations) > 0 {
+						break
+					}
+					if !validErr {
+						usedPri[pri] = true
+						st.anps[a.Name] = o
+						st.w.ANPs = append(st.w.ANPs, a)
+						valid = nil
+					}
+				}
+			}
+			st.call("delete AdminNetworkPolicy "+rej.Name+" (the rejected one)", st.eng.Delete(st.obj(world.ANPDoc(&rej))), true)
+			if valid == nil {
+				done = true
+				break
+			}
+			r.Ev("valid_anp_insert_failed_next_to_a_rejected_one", 1)
+			wB := st.w.Clone()
+			wA := st.w.Clone()
+			wA.ANPs = append(wA.ANPs, *valid)
+			oa, errA := observe.ObjectsFromWorld(wA)
+			ob, errB := observe.ObjectsFromWorld(wB)
+			if errA != nil || errB != nil {
+				break
+			}
+			fa, ca := observe.NewEngineWithObjects(oa)
+			fb, cb := observe.NewEngineWithObjects(ob)
+			if ca.Panic != "" || ca.HasErr || cb.Panic != "" || cb.HasErr {
+				break
+			}
+			okA, okB := true, true
+			witness := ""
+			pods := []string{}
+			for i := range st.w.Workloads {
+				for k, pn := range podNamesOf(&st.w.Workloads[i]) {
+					if k < 2 && len(pods) < 6 {
+						pods = append(pods, pn)
+					}
+				}
+			}
+			for _, s0 := range pods {
+				for _, d0 := range pods {
+					if s0 == d0 {
+						continue
+					}
+					for _, pr := range []string{"TCP", "UDP"} {
+						for _, p := range ports {
+							a := st.eng.Check(s0, d0, pr, fmt.Sprint(p))
+							xa, xb := fa.Check(s0, d0, pr, fmt.Sprint(p)), fb.Check(s0, d0, pr, fmt.Sprint(p))
+							if a.Panic != "" || a.HasErr || xa.HasErr || xb.HasErr || xa.Panic != "" || xb.Panic != "" {
+								continue
+							}
+							r.Ev("queries", 1)
+							if a.Allowed != xa.Allowed {
+								okA = false
+								witness += fmt.Sprintf(" [%s>%s/%s/%d engine=%v with-it=%v]", s0, d0, pr, p, a.Allowed, xa.Allowed)
+							}
+							if a.Allowed != xb.Allowed {
+								okB = false
+								witness += fmt.Sprintf(" [%s>%s/%s/%d engine=%v without-it=%v]", s0, d0, pr, p, a.Allowed, xb.Allowed)
+							}
+						}
+					}
+				}
+			}
+			if !okA && !okB {
+				if len(witness) > 600 {
+					witness = witness[:600]
+				}
+				r.Violate("c15.history", "c15.history:failed-anp-insert:mixed-state", "all answers those of a fresh engine holding the policy whose insert returned an error, or all those of one without it",
+					"neither:"+witness, "history: "+strings.Join(st.log, " ; "))
+				break
+			}
+			if okA && !okB {
+				r.Ev("policy_of_a_failed_insert_is_held", 1)
+			}
+			if okA {
+				st.w = wA
+				usedPri[valid.Priority] = true
+			} else {
+				// not held as far as the answers tell; a delete makes that certain whatever the engine kept
+				st.call("delete AdminNetworkPolicy "+valid.Name+" (its insert failed)", st.eng.Delete(st.obj(world.ANPDoc(valid))), true)
 			}
 			prev = map[string]bool{}
 			continue
